@@ -709,6 +709,41 @@ def archive_method(I, st, ref, name, ca, node):
         return [(s, NONE)]
     if name == '__len__' and not p:
         return [(st, IntV(a.size))]
+    if name == 'get' and len(p) in (1, 2) and not ca.kw:
+        default = p[1] if len(p) == 2 else NONE
+        out = []
+        for (s, r) in archive_method(I, st, ref, '__getitem__', CallArgs([p[0]]), node):
+            if isinstance(r, Exc) and r.kind == 'KeyError':
+                out.append((s, default))
+            else:
+                out.append((s, r))
+        return out
+    if name == '__contains__' and len(p) == 1 and not ca.kw:
+        kt = I.to_val(p[0], node)
+        out = []
+        for (s, h) in I.branch(st, Hashable(kt), None, 'unhashable'):
+            if not h:
+                out.append((s, Exc('TypeError', origin='unhashable in archive')))
+            else:
+                out.append((s, BoolV(a.dom[kt])))
+        return out
+    if name == '__setitem__' and len(p) == 2 and not ca.kw:
+        kt = I.to_val(p[0], node)
+        vt = I.to_val(p[1], node)
+        out = []
+        for (s, h) in I.branch(st, Hashable(kt), None, 'unhashable'):
+            if not h:
+                out.append((s, Exc('TypeError', origin='archive[unhashable]=')))
+                continue
+            for (s1, isnull) in I.branch(s, a.null, 'null-arch', 'real-arch'):
+                if isnull:
+                    out.append((s1, NONE))
+                else:
+                    s2 = s1.fork()
+                    s2.put(ref, a.clone(dom=z3.Store(a.dom, kt, True), val=z3.Store(a.val, kt, vt),
+                                        size=a.size + z3.If(a.dom[kt], 0, 1)))
+                    out.append((s2, NONE))
+        return out
     raise Unsupported('archive method %s/%d' % (name, len(p)), node)
 
 
@@ -907,6 +942,8 @@ def setitem(I, st, o, k, v, node):
             items[k.s] = v
             s.put(o, ConcDict(items))
             return [(s, NONE)]
+        if obj.kind == 'archive':
+            return archive_method(I, st, o, '__setitem__', CallArgs([k, v]), node)
         if hasattr(obj, 'setitem'):
             return obj.setitem(I, st, o, k, v, node)
     raise Unsupported('item store on %r' % (o,), node)
@@ -1168,6 +1205,8 @@ def contains(I, st, container, item, node):
             return dict_contains(I, st, container, item, node)
         if obj.kind == 'concdict' and isinstance(item, StrV):
             return [(st, BoolV(item.s in obj.items))]
+        if obj.kind == 'archive':
+            return archive_method(I, st, container, '__contains__', CallArgs([item]), node)
         if hasattr(obj, 'contains'):
             return obj.contains(I, st, container, item, node)
     if isinstance(container, TupleV):
